@@ -261,6 +261,13 @@ class Generator:
             al = it.head_start - it.start
             if it.kind == 'struct' and '(' in txt[al:]:
                 txt = txt[:al] + re.sub(r'\(\s*(?!pub\b)(?=[A-Za-z&\[(])', lambda m: m.group(0) + 'pub ', txt[al:], count=1)
+        expand_clone = bool(c and 'expand-derive-clone' in c.attrs)
+        if expand_clone:
+            it_attrs_before = list(it.attrs)
+            it.attrs = [re.sub(r'\bClone\s*,\s*|,\s*Clone\b|\bClone\b', '', a, count=1) if a.startswith('#[derive') else a for a in it.attrs]
+            if it.attrs == it_attrs_before:
+                raise ToolCondition('R16: %s does not derive Clone' % addr)
+            self.rules.hit('R16')
         txt = self.pubify_head(txt, it, src)
         self.record_field_types(rel, txt)
         extra = ''
@@ -273,6 +280,17 @@ class Generator:
             self.emit(c.ghost, 'spec', src_file=c.src)
         if c and c.after:
             self.emit('\n' + c.after, 'spec', src_file=c.src)
+        if expand_clone:
+            fields = re.findall(r'(?:pub\s+)?([a-z_][a-z0-9_]*)\s*:', src[it.body_open + 1:it.body_close])
+            body = ', '.join('%s: self.%s.clone()' % (f, f) for f in fields)
+            self.emit('''
+// R16: what `#[derive(Clone)]` generates (field-wise clone), written out so that it carries a postcondition
+impl Clone for %s {
+    fn clone(&self) -> (r: Self)
+        ensures r == *self,
+    { %s { %s } }
+}
+''' % (it.name, it.name, body))
         for (enum, variant, ty) in self.from_impls:
             self.emit(FROM_TEMPLATE.format(enum=enum, variant=variant, ty=ty))
         self.from_impls = []
